@@ -3,6 +3,8 @@
 //! model and the oracle are evaluated on the same cases.
 mod util;
 mod c17;
+mod dictgen;
+mod tok;
 
 fn main() {
     // silence panic messages of caught panics
@@ -19,6 +21,7 @@ fn main() {
     let corpus = args.get(5).map(|s| s.as_str());
     let r = match prop {
         "C17" => c17::run(seed, n, outdir, corpus),
+        "TOK" | "C01" | "C02" | "C03" | "C04" | "C08" | "C12" | "C13" => tok::run(prop, seed, n, outdir, corpus),
         _ => {
             eprintln!("unknown property {}", prop);
             std::process::exit(2);
